@@ -206,20 +206,27 @@ class ScriptedMixin:
             return [Cancel(c[0])] if c else []
         if k == "RESUBMIT":
             placed = [o for o in self.mine if o.placed_at is not None]
+            if atom[1:] == ["live"]:
+                placed = [o for o in placed if self._live(o, self.simulator.id2market[o.market_id].get_time())]
+            if placed:
+                W.rec("invalid", self.agent_id, "resubmit", placed[0])
             return placed[:1]
         if k == "SPOOF":
             other = [a for a in self.simulator.agents if a.agent_id != self.agent_id][0]
-            return [Order(other.agent_id, markets[0].market_id, True, LIMIT_ORDER, 1, price=100.0)]
+            o = Order(other.agent_id, markets[0].market_id, True, LIMIT_ORDER, 1, price=100.0)
+            W.rec("invalid", self.agent_id, "spoof", o)
+            return [o]
         if k == "CANCEL_OTHER":
             for a in self.simulator.agents:
                 if a.agent_id != self.agent_id:
                     for o in getattr(a, "mine", []):
                         if o.placed_at is not None:
+                            W.rec("invalid", self.agent_id, "cancel_other", o)
                             return [Cancel(o)]
             return []
-        if k == "WRONG_MARKET_OBJ":
-            # an order object naming a market the agent lists but handed over twice in one batch
+        if k == "TWICE":
             o = Order(self.agent_id, markets[0].market_id, True, LIMIT_ORDER, 1, price=99.0)
+            W.rec("invalid", self.agent_id, "twice_in_batch", o)
             return [o, o]
         raise common.HarnessError("unknown menu atom %r" % (atom,))
 
